@@ -157,6 +157,35 @@ def build():
         return (not bad), (bad or "NODE_FUNCTION_MAP wires each operator/literal node type to the method proved to render it"), len(NODE_GLYPH) + 12
     plan.ground.append(("dispatch-table", dispatch_check))
 
+
+    # ------------------------------------------------------------------ memoisation is transparent: every cached method keys on all its parameters
+    def caches_key_on_all_parameters():
+        import ast as _ast
+        import glob as _glob
+        from pyvc import extract as _ex
+        bad, n = [], 0
+        for f in sorted(_glob.glob(os.path.join(_ex.SRC, "*.py"))):
+            tree = _ast.parse(open(f).read())
+            for cls_ in [c for c in _ast.walk(tree) if isinstance(c, _ast.ClassDef)]:
+                for fn in [x for x in cls_.body if isinstance(x, _ast.FunctionDef)]:
+                    for d in fn.decorator_list:
+                        if isinstance(d, _ast.Call) and _ast.unparse(d.func) == "cache":
+                            k = 1
+                            for kw in d.keywords:
+                                if kw.arg == "num_args":
+                                    k = _ast.literal_eval(kw.value)
+                            if d.args:
+                                k = _ast.literal_eval(d.args[0])
+                            params = [a.arg for a in fn.args.args if a.arg != "self"]
+                            n += 1
+                            if len(params) > k:
+                                bad.append(f"{os.path.basename(f)}:{cls_.name}.{fn.name}({', '.join(params)}) is cached on its first {k} argument(s) only: calls that "
+                                           f"differ in {params[k:]} return the first call's result")
+        if n == 0:
+            return False, "anchor lost: no @cache-decorated method found", 0
+        return (not bad), bad[:5], n
+    plan.ground.append(("memoised-methods-key-on-every-parameter", caches_key_on_all_parameters))
+
     plan.bounded.append(BoundedStandIn(
         "render-parse-back", "c08_render.py", ["--depth", "3", "--random", "400"], thorough_args=["--depth", "4", "--random", "6000"],
         bound="all expression trees of depth <= 2 over every operator, unary minus, percent, lists, a known function with 0-3 "
